@@ -101,10 +101,11 @@ class Simulation:
         if len(self.raw_args) > 0:
             return self.raw_args
 
-        # Compute new otherwise
+        # Compute new otherwise; only keep the result if every segment succeeded
+        raw_args: list[pd.DataFrame] = []
         for res, p in zip(self.raw_variables, self.raw_parameters, strict=True):
             self.model.update_parameters(p)
-            self.raw_args.append(
+            raw_args.append(
                 self.model.get_args_time_course(
                     variables=res,
                     include_variables=True,
@@ -117,6 +118,7 @@ class Simulation:
                     include_readouts=True,
                 )
             )
+        self.raw_args = raw_args
         return self.raw_args
 
     def _select_data(
